@@ -120,6 +120,13 @@ func LogLen() int { return Fab.nlog }
 //go:norace
 func LogSince(from int) []Packet {
 	var out []Packet
+	// the single reader has consumed everything before `from`: drop it (keeps long-lived worlds flat)
+	for Fab.head != nil && Fab.head.p.Seq < from {
+		Fab.head = Fab.head.next
+	}
+	if Fab.head == nil {
+		Fab.tail = nil
+	}
 	for n := Fab.head; n != nil; n = n.next {
 		if n.p.Seq >= from {
 			out = append(out, Packet{Seq: n.p.Seq, Proto: n.p.Proto, From: n.p.From, To: n.p.To, Data: nclone(n.p.Data), Conn: n.p.Conn, Driver: n.p.Driver, Partial: n.p.Partial})
